@@ -456,6 +456,22 @@ func streamBuiltins(o *Out, r *rand.Rand, n int, thorough bool) {
 		}
 	}
 	// misuse must be an error, never a crash
+	// looping over range(...) is looping over the list range(...) returns - errors included
+	for a := int64(-2); a <= 3; a++ {
+		for b := int64(-2); b <= 3; b++ {
+			for c := int64(-2); c <= 2; c++ {
+				vars := map[string]interface{}{"a": a, "b": b, "c": c}
+				direct := runScript("r = []\nfor i in range(a, b, c) {\nr += i\n}\nr", vars, coreEnv)
+				viaList := runScript("l = range(a, b, c)\nr = []\nfor i in l {\nr += i\n}\nr", vars, coreEnv)
+				o.Sum.Evaluations++
+				o.Sum.Hist["for-in-range"]++
+				if direct.panicked || viaList.panicked || (direct.err == nil) != (viaList.err == nil) || (direct.err == nil && fmt.Sprint(direct.val) != fmt.Sprint(viaList.val)) {
+					o.Fail(Failure{Oracle: "range-progression", Key: "for-in-range-differs", Input: fmt.Sprintf("for i in range(%d, %d, %d) { r += i }", a, b, c),
+						Detail: fmt.Sprintf("looping over the call gives %v (err %v); looping over the list it returns gives %v (err %v)", direct.val, direct.err, viaList.val, viaList.err)})
+				}
+			}
+		}
+	}
 	for _, src := range []string{"kindOf({\"a\": 1}...)", "toInt(\"7\"...)", "typeOf(1...)", "toString(nil...)", "toInt()", "toInt(1, 2)", "keys(1)", "keys()", "range(\"x\")", "range(1, \"x\")", "typeOf()", "kindOf(1, 2)", "toString()",
 		"toChar(\"abc\")", "toIntSlice(1)", "toDuration(\"x\")", "load(1)", "toBoolSlice([1], 2)", "range([1])", "keys(nil)", "toRune([1])", "toByteSlice({})"} {
 		out := runScript(src, nil, coreEnv)
